@@ -107,6 +107,7 @@ PRIMITIV_C_STATUS primitivAddParametersToOptimizer(
   PRIMITIV_C_CHECK_NOT_NULL(optimizer);
   PRIMITIV_C_CHECK_NOT_NULL(params);
   Optimizer *cc_optimizer = to_cpp_ptr(optimizer);
+  for (size_t i = 0; i < n; ++i) PRIMITIV_C_CHECK_NOT_NULL(params[i]);
   for (size_t i = 0; i < n; ++i) {
     cc_optimizer->add(*to_cpp_ptr(params[i]));
   }
@@ -126,6 +127,7 @@ PRIMITIV_C_STATUS primitivAddModelsToOptimizer(
   PRIMITIV_C_CHECK_NOT_NULL(optimizer);
   Optimizer *cc_optimizer = to_cpp_ptr(optimizer);
   PRIMITIV_C_CHECK_NOT_NULL(models);
+  for (size_t i = 0; i < n; ++i) PRIMITIV_C_CHECK_NOT_NULL(models[i]);
   for (size_t i = 0; i < n; ++i) {
     cc_optimizer->add(*to_cpp_ptr(models[i]));
   }
